@@ -291,6 +291,101 @@ Section StreamProofs.
       intros p Hp. subst r. destruct F as [[F _]|[_ [_ [F2 [F3 _]]]]]; [discriminate|]. unfold avail in F2. lia.
   Qed.
 
+  (* ---------------------------------------------------------------- a failing body never gives a table (all inputs) *)
+  Local Notation parse_phase0 := (parse_phase L llen PS recog lineno).
+
+  Lemma parse_phase_done_err : forall s r s', parse_phase0 s = Done r s' -> exists c ln, r = RErr c ln.
+  Proof.
+    intros s r s' H. unfold Model.parse_phase in H.
+    destruct (pr s); [discriminate|]. destruct (negb (geom_ok (buf s))); [discriminate|].
+    destruct (negb (off s =? 0)); [discriminate|].
+    destruct (pm L llen PS recog lineno (avail (buf s)) (ps s) (rest s) 0 (log s)) as [[[[p' r1] c'] lg']|[c ln]]; [discriminate|].
+    inversion H. exists c, ln. reflexivity.
+  Qed.
+
+  Lemma sar_not_ok : forall s1 c1 r s', WFm s1 -> (fc s1 = true -> avail (buf s1) = 0) -> 0 < c1 ->
+    sar (Z.max 0 (Z.min (space (buf s1)) c1)) [] (space (buf s1)) s1 = Done r s' -> forall p, r <> ROk p.
+  Proof.
+    intros s1 c1 r s' Wm Hfc Hc H p Hr. subst r.
+    destruct Wm as [Wg Wc Wh [Wo1 Wo2] Wa Ws Wu Wpo Wpc Wtg Wcb Wms Wt Wpl Wl Wr Wd].
+    pose proof (caps_bounds L PS init_ps recog bump lineno _ Wc) as Hcb.
+    assert (Hsp : 0 <= space (buf s1)) by (destruct Wg as [? [? ?]]; unfold space; lia).
+    set (sp := space (buf s1)) in *. set (n := Z.max 0 (Z.min sp c1)) in *.
+    unfold Model.step_after_read in H.
+    destruct (n =? 0) eqn:En.
+    - apply Z.eqb_eq in En. assert (Hs0 : sp = 0) by (subst n; lia).
+      cbn [jf fc tg total ps buf] in H.
+      match type of H with (if ?c then _ else _) = _ => destruct c end.
+      + destruct (parse_phase_done_err _ _ _ H) as [c [ln Q]]. discriminate.
+      + destruct (fc s1) eqn:Efc.
+        * specialize (Hfc eq_refl). destruct Wg as [? [? ?]]. unfold space, avail in *. subst sp. lia.
+        * match type of H with (if ?c then _ else _) = _ => destruct c end.
+          -- match type of H with (if ?c then _ else _) = _ => destruct c end; discriminate.
+          -- match type of H with (if ?c then _ else _) = _ => destruct c end; discriminate.
+    - destruct (parse_phase_done_err _ _ _ H) as [c [ln Q]]. discriminate.
+  Qed.
+
+  Lemma step_stream_unfold_gen : forall x c1 pend1, WF (core x) ->
+    refill (cur x) (pend x) = Some (c1, pend1) ->
+    step_stream x = wrap (c1 - Z.max 0 (Z.min (space (buf (mid (core x)))) c1)) pend1
+                         (sar (Z.max 0 (Z.min (space (buf (mid (core x)))) c1)) [] (space (buf (mid (core x)))) (mid (core x))).
+  Proof.
+    intros x c1 pend1 W R. unfold Stream.step_stream. rewrite R.
+    rewrite (geom_ok_true _ (wf_geom _ _ _ _ _ _ _ _ _ _ _ (wf_m _ _ _ _ _ _ _ _ _ _ _ W))). cbn [negb]. rewrite andb_false_r.
+    change (if pr (core x) then recovery L llen PS bump (core x) else core x) with (mid (core x)).
+    rewrite (geom_ok_true _ (wf_geom _ _ _ _ _ _ _ _ _ _ _ (mid_wfm _ W))). reflexivity.
+  Qed.
+
+  Lemma mid_fc : forall s, WF s -> fc (mid s) = true -> avail (buf (mid s)) = 0.
+  Proof.
+    intros s W. unfold ProofsAsync.mid. destruct (pr s) eqn:E.
+    - exact (proj1 (proj2 (recovery_wfm L llen PS init_ps recog bump lineno llen_pos tail ltac:(lia) ilen lines s
+                             (wf_m _ _ _ _ _ _ _ _ _ _ _ W) E))).
+    - exact (wf_fc _ _ _ _ _ _ _ _ _ _ _ W E).
+  Qed.
+
+  Lemma stream_step_fail_not_ok : forall x r x', WF (core x) -> RI x -> fails (pend x) = true ->
+    step_stream x = SDone r x' -> forall p, r <> ROk p.
+  Proof.
+    intros x r x' W [Hc Hu] Hf H p.
+    destruct (refill (cur x) (pend x)) as [[c1 pend1]|] eqn:R.
+    - destruct (refill_some _ _ _ _ Hc R) as [A [B [C D]]].
+      assert (Hpos : 0 < c1).
+      { destruct (Z.eq_dec c1 0) as [Q|Q]; [|lia]. destruct (D Q) as [_ D2]. congruence. }
+      rewrite (step_stream_unfold_gen x c1 pend1 W R) in H.
+      destruct (sar (Z.max 0 (Z.min (space (buf (mid (core x)))) c1)) [] (space (buf (mid (core x)))) (mid (core x)))
+        as [s2|r2 s2|t2] eqn:S; cbn [Stream.wrap] in H; try discriminate.
+      inversion H; subst r2.
+      exact (sar_not_ok (mid (core x)) c1 r s2 (mid_wfm _ W) (mid_fc _ W) Hpos S p).
+    - unfold Stream.step_stream in H. rewrite R in H.
+      destruct (pr (core x) && negb (geom_ok (buf (core x)))); [discriminate|]. inversion H. discriminate.
+  Qed.
+
+  Lemma stream_run_fail_not_ok : forall n x r x', WF (core x) -> RI x -> fails (pend x) = true ->
+    iter_nat_s n x = SDone r x' -> forall p, r <> ROk p.
+  Proof.
+    induction n as [|n IH]; intros x r x' W Ri Hf H; cbn [iter_nat_s] in H; [discriminate|].
+    pose proof (stream_step_wf x W Ri) as SW.
+    destruct (step_stream x) as [x1|r1 x1|t] eqn:E.
+    - destruct SW as [W1 [R1 [_ F1]]]. apply (IH x1 r x' W1 R1); [rewrite F1; exact Hf|exact H].
+    - injection H as H1 H2. subst r1. exact (stream_step_fail_not_ok x r x1 W Ri Hf E).
+    - contradiction.
+  Qed.
+
+  (* ALL inputs (also with over-long lines, in or after a recovery): when the body fails parse_async returns an error *)
+  Lemma stream_fail_not_ok : forall script, delivered script = ilen -> fails script = true ->
+    forall r x, drive_stream lines t0 script = Ret (r, x) -> forall p, r <> ROk p.
+  Proof.
+    intros script Hd Hf r x H. unfold Stream.drive_stream in H. rewrite iter_stream_nat in H.
+    destruct (iter_nat_s (Pos.to_nat (fuel_for L llen lines t0)) (init_stream lines t0 script)) as [x1|r1 x1|t] eqn:E;
+      try discriminate.
+    inversion H; subst r1 x1.
+    eapply stream_run_fail_not_ok; [| | |exact E].
+    - unfold Stream.init_stream. cbn [core]. apply init_wf'. exact llen_pos.
+    - exact (init_RI script Hd).
+    - exact Hf.
+  Qed.
+
   (* ---------------------------------------------------------------- short lines: the outcome *)
   Hypothesis short : short_lines llen lines t0.
   Local Notation CI := (CI L llen PS init_ps recog bump lineno lines t0).
